@@ -16,7 +16,9 @@ FUNCTIONS = [
     "safeds_stubgen.api_analyzer._ast_visitor:MyPyAstVisitor._parse_attributes",
 ]
 EXPLANATION = (
-    "Engine C on the mypy shim: the real ASTWalker + MyPyAstVisitor run on every module tree of the grammar G_ast "
+    "Engine K: the real AST of _create_id_from_stack yields '<module id>/<class>/<function>/<name>' for every module id and "
+    "all identifier names within the bound (the pending-assignment list on the stack contributes nothing) and is "
+    "injective on identifier names. Engine C on the mypy shim: the real ASTWalker + MyPyAstVisitor run on every module tree of the grammar G_ast "
     "(module docstring; functions public/private/decorated; classes whose bodies hold annotated / inferred / "
     "tuple-target class attributes, instance/static/class methods, read-only and read/write properties, overloads with "
     "implementation, a constructor assigning instance attributes and re-assigning a class attribute, nested classes, "
@@ -51,6 +53,7 @@ def plan(tier):
         parts = ["0:0,1:0", "0:1,1:0"] + [f"0:{d},1:{n},2:{k}" for d in range(2) for n in (1, 2) for k in range(6)]
     return [
         K("conformance", "harness.walk", "conformance_job", "shim builders vs real mypy", timeout=1200),
+        K("k_ids", "kjobs.c12", "id_from_stack", "ids = owner path + '/' + name; injective on identifier names"),
         CH("inventory", "harness.walk", "inventory", parts, timeout=t, desc="API inventory consistent and complete",
            stubs=["mypy node classes -> validated shim", "plaintext docstring parser"], symbolic="module-tree selectors"),
     ]
